@@ -78,6 +78,12 @@ def run(eng: Engine, ck: Check):
                                                                  'send_server_messages') and c not in qs]
         ck.ob('R-C14-FANOUT', stc, stc.node, 'nothing else is sent from send_messages_to_children', not other, f'{[unparse(o)[:50] for o in other]}',
               construct='fan-out no other target')
+    for lp in loops:
+        aw = [n for st in lp.body for n in walk_local(st) if isinstance(n, (ast.Await, ast.AsyncWith, ast.AsyncFor))]
+        live = chain_str(lp.iter) == 'self.children'
+        ck.ob('R-C14-FANOUT', stc, lp, 'the loop over the live child list does not suspend (a child that closes during an awaited send is removed from the list '
+              'under the loop, and the next child is skipped)', not (aw and live),
+              f'await at line {aw[0].lineno} inside `for .. in self.children`' if aw else '', construct='fan-out loop atomic')
     fwd = handlers_for(eng, dn)
     ck.floor('R-C14-FANOUT.handlers', len(fwd), 3)
     for h, carrier in fwd:
